@@ -60,11 +60,11 @@ fn observe(schema: &Schema, schema_name: &str, query: &str, args: &std::collecti
     }
 }
 
-// @grid c14_grid_determinism tier=quick repeat=2 bound="every query of the corpus (4 schemas, the frontend-error corpus and 8 erroneous queries whose error carries several items): compiled twice and executed twice in one process, and the whole grid run in two separate processes (different hash seeds); schemas are re-parsed from text in each process"
+// @grid c14_grid_determinism tier=quick repeat=2 bound="[+ 100 seeded random accepted documents, VERIF_SEED] every query of the corpus (4 schemas, the frontend-error corpus and 8 erroneous queries whose error carries several items): compiled twice and executed twice in one process, and the whole grid run in two separate processes (different hash seeds); schemas are re-parsed from text in each process"
 // @ob compiling the same query against the same schema yields the same compiled query or the same error, and executing it yields the same rows in the same order through the same sequence of adapter calls - across repetitions and across processes
 pub(crate) fn c14_grid_determinism() {
     let mut n = 0u64;
-    for case in corpus() {
+    for case in crate::verif_corpus::corpus_with_random(100, 14) {
         vk::grid_case(format_args!("{}", case.name));
         // a fresh Schema per observation: Schema holds std HashMaps whose iteration order differs per instance
         let text = std::fs::read_to_string(format!("test_data/schemas/{}.graphql", case.schema_name)).unwrap();
